@@ -1,0 +1,77 @@
+// Copyright ©2017 The bíogo Authors. All rights reserved.
+// Use of this source code is governed by a BSD-style
+// license that can be found in the LICENSE file.
+
+//go:build verif
+
+// Contracts for the hvc verifier (see /verif/DESIGN.md). This file contains
+// comments only; it adds nothing to the package.
+package itf8
+
+// The spec functions are written from the CRAM specification, section 2.3
+// (ITF-8): the number of leading one bits of the first byte gives the number
+// of following bytes; the value bits follow big-endian. In the five byte
+// form the first byte carries bits 31..28 in its low nibble and the last
+// byte carries bits 3..0 in its low nibble; the high nibble of the last byte
+// is not specified and is left unconstrained here.
+//
+//@ spec func itfLen(u uint32) int =
+//@     ite(u < 0x80, 1, ite(u < 0x4000, 2, ite(u < 0x200000, 3, ite(u < 0x10000000, 4, 5))))
+//@ spec func itfHead(u uint32) byte =
+//@     ite(itfLen(u) == 1, byte(u),
+//@     ite(itfLen(u) == 2, 0x80 | byte(u>>8),
+//@     ite(itfLen(u) == 3, 0xc0 | byte(u>>16),
+//@     ite(itfLen(u) == 4, 0xe0 | byte(u>>24), 0xf0 | byte(u>>28)))))
+//@ spec func itfTail(u uint32, n int, i int) byte =
+//@     ite(n < 5, byte(u >> (8*uint32(n-1-i))),
+//@     ite(i < 4, byte(u >> (28 - 8*uint32(i))), byte(u) & 0x0f))
+//@ spec func itfAnnounced(b0 byte) int =
+//@     ite(b0 & 0x80 == 0, 1, ite(b0 & 0x40 == 0, 2, ite(b0 & 0x20 == 0, 3, ite(b0 & 0x10 == 0, 4, 5))))
+//@ spec func itfDec(b []byte, n int) uint32 =
+//@     ite(n == 1, uint32(b[0]),
+//@     ite(n == 2, uint32(b[0]&0x3f)<<8 | uint32(b[1]),
+//@     ite(n == 3, uint32(b[0]&0x1f)<<16 | uint32(b[1])<<8 | uint32(b[2]),
+//@     ite(n == 4, uint32(b[0]&0x0f)<<24 | uint32(b[1])<<16 | uint32(b[2])<<8 | uint32(b[3]),
+//@         uint32(b[0]&0x0f)<<28 | uint32(b[1])<<20 | uint32(b[2])<<12 | uint32(b[3])<<4 | uint32(b[4]&0x0f)))))
+//@ spec func itfEncodes(b []byte, u uint32) bool =
+//@     len(b) >= itfLen(u) && b[0] == itfHead(u) &&
+//@     (forall i in 1..5 :: i < itfLen(u) ==> ite(itfLen(u) == 5 && i == 4, b[i] & 0x0f, b[i]) == itfTail(u, itfLen(u), i))
+
+//@ func Len
+//@   mode bv
+//@   props C20
+//@   ensures[C20] @len result == itfLen(uint32(v))
+
+//@ func Encode
+//@   mode bv
+//@   props C20
+//@   requires len(b) >= itfLen(uint32(v))
+//@   modifies b[0:5]
+//@   ensures[C20] @count result == itfLen(uint32(v))
+//@   ensures[C20] @head b[0] == itfHead(uint32(v))
+//@   ensures[C20] @tail forall i in 1..5 :: i < result ==>
+//@       ite(result == 5 && i == 4, b[i] & 0x0f, b[i]) == itfTail(uint32(v), result, i)
+//@   ensures[C20] @frame forall i in 0..len(b) :: i >= result ==> b[i] == old(b[i])
+
+//@ trusted func ext:math/bits.LeadingZeros8
+//@   ensures result == ite(x & 0x80 != 0, 0, ite(x & 0x40 != 0, 1, ite(x & 0x20 != 0, 2, ite(x & 0x10 != 0, 3,
+//@       ite(x & 0x08 != 0, 4, ite(x & 0x04 != 0, 5, ite(x & 0x02 != 0, 6, ite(x & 0x01 != 0, 7, 8))))))))
+
+//@ func Decode
+//@   mode bv
+//@   props C20, C11
+//@   decoder
+//@   ensures[C20] @empty len(b) == 0 ==> (n == 0 && !ok && v == 0)
+//@   ensures[C20] @announced len(b) > 0 ==> n == itfAnnounced(b[0])
+//@   ensures[C20] @ok len(b) > 0 ==> (ok <==> len(b) >= n)
+//@   ensures[C20] @value ok ==> uint32(v) == itfDec(b, n)
+//@   ensures[C20] @fail !ok ==> v == 0
+
+// Round trip: any buffer holding the specified encoding of u decodes (by the
+// specified decoding) to u, with the announced length equal to the encoded
+// length. Together with the contracts of Encode and Decode this gives
+// Decode(Encode(v)) == v for every int32.
+//@ lemma[C20] bv roundtrip: forall u uint32, b []byte ::
+//@     itfEncodes(b, u) ==> (itfAnnounced(b[0]) == itfLen(u) && itfDec(b, itfLen(u)) == u)
+// Len is the minimal class: values below the class boundary never need more bytes.
+//@ lemma[C20] bv lenrange: forall u uint32 :: 1 <= itfLen(u) && itfLen(u) <= 5
